@@ -110,7 +110,7 @@ func (m *C01) expectedResult(rq *mRequest, status oracletypes.ResolveStatus, res
 
 func (m *C01) evalScript(rq *mRequest) (oracletypes.ResolveStatus, []byte) {
 	switch int(rq.Msg.OracleScriptID) {
-	case scriptSimple:
+	case scriptSimple, scriptDesc:
 		return oracletypes.RESOLVE_STATUS_SUCCESS, []byte("test")
 	case scriptEmpty:
 		return oracletypes.RESOLVE_STATUS_SUCCESS, []byte{}
